@@ -487,8 +487,8 @@ def r3(p, rep):
                     rep.violation("C16.R3", f"{f.qualname if f else m.name}:{r[1]}", f"{m.rel}:{n.lineno}", f"entropy source {r[1]} referenced on the call path")
                 if r and r[0] == "external" and r[1].startswith("os.environ"):
                     where = f.qualname if f else m.name + "::<module>"
-                    ok = f is None and m.name.endswith("util.lru_cache")
-                    rep.add("C16.R3", f"{where}:os.environ", f"{m.rel}:{n.lineno}", ok, "import-time configuration read (cache size / retrace warning)" if ok else "environment read at call time")
+                    ok = f is None  # module level: read once when einx is imported - declared configuration of the process, like EINX_CACHE_SIZE
+                    rep.add("C16.R3", f"{where}:os.environ", f"{m.rel}:{n.lineno}", ok, "import-time configuration read (an EINX_* setting of the process)" if ok else "environment read at call time: two calls of one process can see different settings")
             if isinstance(n, ast.Call) and isinstance(n.func, ast.Name) and n.func.id == "hash":
                 f = p.func_containing(n)
                 in_hash = f is not None and f.name == "__hash__"
